@@ -250,7 +250,9 @@ class FileDataPdu(AbstractPduBase):
                 raise BytesTooShortError(current_idx + segment_metadata_len, end_of_data)
             metadata = data[current_idx : current_idx + segment_metadata_len]
             current_idx += segment_metadata_len
-            file_data_packet.segment_metadata = SegmentMetadata(
+            # Do not use the property setter here: it would recalculate the PDU data field length
+            # before the file data is known and overwrite the value decoded from the header.
+            file_data_packet._params.segment_metadata = SegmentMetadata(
                 record_cont_state=rec_cont_state, metadata=metadata
             )
         if not file_data_packet.pdu_header.large_file_flag_set:
